@@ -254,10 +254,15 @@ def run(res, tier):
     res.rule("C08.3 partial calls exclusive: in the OpenMP and Specx executors every task that writes a group block declares it inout / commutative-write, so the partial accumulating calls a block receives (their number depends on the block size) never overlap")
     partial_calls_exclusive(res)
     # clause 2
-    R = "C08.2.block-size-positive"
+    block_size_positive(facts, res)
+
+
+def block_size_positive(facts, res, R="C08.2.block-size-positive", only=None):
     n = 0
     for fn in facts.functions:
         if fn.get("inst") or not fn["qname"].startswith("TbfBlockSizeFinder::Estimate"):
+            continue
+        if only is not None and fn["name"] not in only:
             continue
         n += 1
         rets = [r for r in walk(tbf.body(fn)) if r.get("k") == "ReturnStmt" and kids(r)]
@@ -276,12 +281,21 @@ def run(res, tier):
                 break
             while e.get("k") in ("CXXStaticCastExpr", "CStyleCastExpr", "CXXFunctionalCastExpr") and kids(e):
                 e = strip(kids(e)[0])
-            ok = e.get("k") == "CallExpr" and tbf.callee_name(e) == "max" and any(strip(a).get("k") == "IntegerLiteral" and strip(a).get("val", 0) >= 1 for a in tbf.call_args(e))
+            def clamped(x):
+                x = strip(x)
+                while x.get("k") in ("CXXStaticCastExpr", "CStyleCastExpr", "CXXFunctionalCastExpr", "ImplicitCastExpr", "MaterializeTemporaryExpr") and kids(x):
+                    x = strip(kids(x)[-1])
+                return x.get("k") == "CallExpr" and tbf.callee_name(x) == "max" and any(strip(a).get("k") == "IntegerLiteral" and strip(a).get("val", 0) >= 1 for a in tbf.call_args(x))
+            ok = clamped(e)
+            if not ok and e.get("k") in ("CallExpr", "CXXConstructExpr", "InitListExpr", "CXXTemporaryObjectExpr", "CXXUnresolvedConstructExpr", "CXXFunctionalCastExpr"):
+                # one size per tree (a pair): every component is clamped
+                comps = tbf.call_args(e) if e.get("k") == "CallExpr" and tbf.callee_name(e) in ("make_pair", "make_tuple") else (kids(e) if e.get("k") != "CallExpr" else [])
+                ok = len(comps) >= 2 and all(clamped(c_) for c_ in comps)
             res.instance(R, fn["qname"], facts.loc(r), facts.ntext(e)[:100])
             if not ok:
                 res.violation(R, tbf.rel(facts.path_of(r)), fn["qname"], "return@%d" % r["l"][1], r["l"][1],
                               "the automatic block size '%s' is not clamped to >= 1: with few leaves it becomes 0 and the tree is built empty" % facts.ntext(e)[:80])
-    res.floor(R, n, 2, "estimators")
+    res.floor(R, n, 2 if only is None else 1, "estimators")
 
 
 def reads_env(facts, n, depth=0):
